@@ -360,6 +360,11 @@ func (x *runner) checkState(op string) {
 		st = append(st, fmt.Sprintf("r%d{sel=%s act=%s n=%d}", i, orDash(s.selected), orDash(s.active), len(s.list)))
 		x.b.Max("max_versions_listed", int64(len(s.list)))
 	}
+	for id := range snaps {
+		if x.m.Res[id] == nil {
+			x.violate("C19:listing:"+op+":unexpected-resource", fmt.Sprintf("after %s the registry holds resource %q, which was never defined", op, id), nil)
+		}
+	}
 	switch op {
 	case "Purge": // judged by opPurge itself
 	case "AddResource", "SetFlag", "GetSelectedVersions":
